@@ -136,6 +136,7 @@ def parseCarried (route send : String) : Option Carried := do
   else if route = "F" then pure (conv (clientCarried .falsy sendArg))
   else if route = "N" then pure (.ok none true)
   else match route.toList with
+    | 'C' :: ':' :: h => do pure (conv (clientCarried (.dfltAs (← bytesOfHex (String.ofList h))) sendArg))
     | 'T' :: ':' :: h => do pure (conv (clientCarried (.text (← bytesOfHex (String.ofList h))) sendArg))
     | 'L' :: ':' :: h => do
       match jsonLoads (← bytesOfHex (String.ofList h)) with
